@@ -510,6 +510,11 @@ def make_inputs(ctx, base):
            dict(name="nf/sl", type="sym", target="blk"),
            dict(name="fifo", type="fifo", xattrs={"user.f": "x" * 30})]
     inputs.append(tar_input(rnd, base, "tar-xattr-nofrag-zstd-4k", 4096, "zstd", mem))
+    # O: tar2sqfs with an export table (the last optional table sqfs_writer_finish writes), with and without fragments
+    r4 = random.Random(ctx.seed * 613 + 11)
+    mem = [dict(name="e", type="dir"), dict(name="e/blk", data=blob(r4, 4096, "mixed")),
+           dict(name="e/tail", data=blob(r4, 300, "text"), uid=7), dict(name="e/sl", type="sym", target="blk")]
+    inputs.append(tar_input(r4, base, "tar-export-gzip-4k", 4096, "gzip", mem, extra_args=["-e"]))
     if ctx.tier == "thorough":
         # all 16 combinations of the optional sections, gensquashfs, rotating compressors
         for c in range(16):
@@ -585,6 +590,33 @@ def md5_file(p):
     return hashlib.md5(b).hexdigest(), len(b)
 
 
+def image_identity(p):
+    """(the 96 super block bytes, md5 of the bytes [0, bytes_used)) of the file `p`: what makes it *the* image.
+    None components when the file is shorter than a super block / than its own bytes_used."""
+    try:
+        b = open(p, "rb").read()
+    except OSError:
+        return None, None
+    if len(b) < 96:
+        return None, None
+    sb = b[:96]
+    used = int.from_bytes(sb[40:48], "little")
+    return sb.hex(), (hashlib.md5(b[:used]).hexdigest() if used <= len(b) else None)
+
+
+def decode_super(hexsb):
+    b = bytes.fromhex(hexsb)
+    return {n: int.from_bytes(b[o:o + w], "little") for n, o, w in FIELDS}
+
+
+def super_diff(a, b):
+    """differing super block fields, 'name: leftover -> complete'"""
+    if a is None or b is None:
+        return ["no super block"]
+    da, db = decode_super(a), decode_super(b)
+    return ["%s: %#x, complete image %#x" % (n, da[n], db[n]) for n, _, _ in FIELDS if da[n] != db[n]]
+
+
 class Full:
     pass
 
@@ -637,6 +669,7 @@ def full_run(ctx, info, shim, drv, inp, base, fdrv=None):
             f.model["ks"][int(p[1])] = dict(accepts=p[2] == "1", size=int(p[3], 16), md5=p[4], image_md5=p[5])
     f.n = f.model["n"]
     f.final_md5, f.final_size = md5_file(f.img)
+    f.final_super, f.final_body = image_identity(f.img)
     # the logged calls as a refinement of the section-level trace recomputed from the image (coq/C14/SectionModel.v)
     f.fine = fine_stage.real_check(fdrv, f.log, f.img, preexec=big_stack) if fdrv else None
     return f
@@ -652,6 +685,7 @@ def kill_point(info, shim, f, k):
     rc, err = run_packer(info, shim, f.inp, out, kill=(k if k < f.n else None))
     md5, size = md5_file(out)
     res = dict(k=k, rc=rc, md5=md5, size=size, readers={})
+    res["super"], res["body"] = image_identity(out)
     for w in READERS:
         res["readers"][w] = run_reader(info, w, out) if md5 is not None else (1, "nofile", 0)
     if f.old and md5 is not None:
@@ -769,7 +803,7 @@ def run(ctx):
     concrete = 0
     reported = set()
     verdict_bad = []
-    stat = dict(violating=0, kill_points=0, rejected_by_all=0, complete=0, old_image_intact=0, before_commit=0, after_commit=0,
+    stat = dict(violating=0, accepted_different_image=0, kill_points=0, rejected_by_all=0, complete=0, old_image_intact=0, before_commit=0, after_commit=0,
                 model_accepts_reader_rejects=0, unpadded_accepted=0, unpadded_points=0)
     per_input = {}
     for f, res in results:
@@ -785,11 +819,36 @@ def run(ctx):
                               % (k, res["md5"], res["size"], mk)))
         all_rej = True
         violating = False
+        # "either rejected by every reader or form the complete, correct image": an accepted file must BE the complete image -
+        # the same super block (every field: flags, table starts, bytes_used, ...) and the same bytes [0, bytes_used).  What the
+        # readers print is not enough: a table no reader prints (export table) or a flag may still be missing.
+        same_image = (res.get("super") is not None and res["super"] == f.final_super and res.get("body") is not None
+                      and res["body"] == f.final_body)
         for w in READERS:
             rc, sha, ln = res["readers"][w]
             ref = f.refs[w]
             if rc == 0 and ref[0] == 0 and sha == ref[1]:
                 all_rej = False
+                if not same_image and not res.get("is_old"):
+                    violating = True
+                    concrete += 1
+                    stat["accepted_different_image"] = stat.get("accepted_different_image", 0) + 1
+                    sd = super_diff(res.get("super"), f.final_super)
+                    sig = "crash-window:%s:accepted-different-image" % f.inp.tool
+                    if sig not in reported:
+                        reported.add(sig)
+                        ctx.violation(sig, "%s killed right before output call %d of %d (commit is call %d) on input %s: %s accepts the "
+                                      "file left behind (%d bytes) and prints what it prints for the complete image, but the file is not "
+                                      "the complete image: %s" % (
+                                          f.inp.tool, k, f.n, m["commit"], f.inp.name,
+                                          {"rd-l": "rdsquashfs -l /", "rd-d": "rdsquashfs -d", "s2t": "sqfs2tar"}[w], res["size"],
+                                          ("super block differs (" + "; ".join(sd) + ")") if sd else
+                                          "same super block, bytes [0, bytes_used) differ"),
+                                      dict(kind="kill", input=f.inp.name, k=k, reader=w, recipe=f.inp.recipe, tool=f.inp.tool,
+                                           args=f.inp.args, reader_rc=rc, super_leftover=decode_super(res["super"]) if res.get("super") else None,
+                                           super_complete=decode_super(f.final_super) if f.final_super else None, super_diff=sd,
+                                           body_md5_leftover=res.get("body"), body_md5_complete=f.final_body,
+                                           model_accepts=(mk or {}).get("accepts")))
                 continue
             if rc != 0 and rc != 124 and rc > 0:
                 continue                                  # refused with an error
